@@ -187,6 +187,43 @@ class Report:
                 self.ob("R-control", "%s::%s/inherent-shadows-trait-method" % (owner, name), False,
                         "%s has an inherent method `%s` with the name of a method of a trait it implements: method-call syntax resolves to the inherent one, the rules read the trait implementation"
                         % (owner, name), path.split("/repo/")[-1])
+        # helper functions the algebra reads by their bare name (`div_ceil(a, b)` is ceil division wherever it is called): one definition crate-wide
+        for nm_, maxdefs in (("div_ceil", 1), ("div_floor", 1), ("gcd", 0), ("lcm", 0)):
+            defs_ = [(k_, v_) for k_, v_ in seen_defs.items() if k_[3] == nm_]
+            ndefs = sum(len(v_) for _, v_ in defs_)
+            if ndefs > maxdefs:
+                self.ob("R-control", "helper/%s/definitions" % nm_, False,
+                        "%d definitions of `%s` in the crate (%s): calls are read by name as the %s, and only %s is verified"
+                        % (ndefs, nm_, sorted({(k_[0].split("src/")[-1], k_[1]) for k_, _ in defs_}, key=str),
+                           "exact integer division helper" if nm_.startswith("div") else "num_integer function", "synchro::%s" % nm_ if maxdefs else "none"), "src/")
+        # module-level renaming imports: `use std::cmp::max as min;` changes what a name the rules interpret stands for
+        reviewed_renames = {"crate as rubato", "num_integer as integer"}
+        for fl in facts_.doc["files"]:
+            def scan_use(items, fl=fl):
+                for it in items:
+                    if it.get("k") == "use" and " as " in (it.get("text") or ""):
+                        for part in _re.findall(r"[\w:]+\s+as\s+\w+", it["text"]):
+                            norm_ = _re.sub(r"\s+", " ", part.replace(" :: ", "::")).strip()
+                            if norm_ not in reviewed_renames and not norm_.endswith(" as _"):
+                                self.ob("R-control", "use/%s" % norm_, False, "renaming import `%s` in %s: a name the rules interpret may now stand for something else"
+                                        % (norm_, fl["path"].split("src/")[-1]), "src/%s" % fl["path"].split("src/")[-1])
+                    elif it.get("k") == "mod":
+                        scan_use(it.get("items") or [])
+            scan_use(fl["items"])
+        # a provided (default) trait method replaced by an implementation: the rules read the default body
+        allowed_overrides = {("SincFixedIn", "Resampler", "set_chunk_size"), ("SincFixedOut", "Resampler", "set_chunk_size")}
+        for tname_, tr_ in sorted(facts_.traits.items()):
+            provided = {fn_["name"] for fn_ in tr_["fns"] if fn_.get("body")}
+            if not provided:
+                continue
+            for rel_, im_ in facts_.impls:
+                if im_.get("trait_name") != tname_:
+                    continue
+                for fn_ in im_["fns"]:
+                    if fn_["name"] in provided and (im_.get("self_name"), tname_, fn_["name"]) not in allowed_overrides:
+                        self.ob("R-control", "%s::%s/overrides-default" % (im_.get("self_name"), fn_["name"]), False,
+                                "%s replaces the provided method %s::%s with its own body: the rules read the trait's default body, which this type no longer runs"
+                                % (im_.get("self_ty"), tname_, fn_["name"]), ir.loc(fn_))
         # macros the rules interpret by name: `t!(e)` is read as T::coerce(e), the logging wrappers as nothing (log feature off), and
         # vec!/assert!/matches!/.. as the standard ones.  Their crate-level definitions must say exactly that, and no crate macro may take a std name.
         want = {"t": r"^\(\$(\w+):expr\)=>\{T::coerce\(\$\1\);?\};?$"}
